@@ -185,8 +185,51 @@ SetItemVerdict(e) ==
   ELSE IF e.otherafter # e.otherbefore THEN "setitem_modified_an_unrelated_multivector"
   ELSE "ok"
 
+(***************************************************************************)
+(* C19 certificates for the irrational functions.  The specification does   *)
+(* not compute square roots or exponentials; it VERIFIES recorded results:  *)
+(*  sqrt / x**0.5 : r * r = x  exactly, r = the float result logged as the   *)
+(*                  nearest small-denominator fraction (distance in e.dist) *)
+(*  norm          : r * r = normsq(x);   normalized : normsq(r) = 1,         *)
+(*                  r * norm = x                                              *)
+(*  exp           : x = X / g with integer X on a grid; TLC evaluates        *)
+(*                  N! g^N sum_{k<=N} x^k / k!  =  sum (N!/k!) g^(N-k) X^k   *)
+(*                  in integer arithmetic and compares with the logged value *)
+(*                  scaled by S = N! g^N, within the remainder bound e.tol   *)
+(***************************************************************************)
+MIx == INSTANCE MultivectorRef WITH
+        CZero <- 0, COne <- 1, CAdd <- LAMBDA a, b : a + b, CMul <- LAMBDA a, b : a * b,
+        CNeg <- LAMBDA a : 0 - a, CEq <- LAMBDA a, b : a = b, CScale <- LAMBDA k, a : k * a
+RECURSIVE IPow(_, _)
+IPow(b, n) == IF n = 0 THEN 1 ELSE b * IPow(b, n - 1)
+AbsInt(n) == IF n < 0 THEN 0 - n ELSE n
+CertVerdict(c, e) ==
+  IF e.raised # "" THEN "raised_in_the_stated_domain"
+  ELSE IF e.cert \in {"sqrt", "powhalf"} THEN
+       LET r == DecodeMV(c, "rat", e.r) x == DecodeMV(c, "rat", e.x) IN
+       IF MR!SameElement(MR!GP(c, r, r), x) THEN "ok" ELSE "square_of_the_square_root_differs_from_the_operand"
+  ELSE IF e.cert = "norm" THEN
+       LET r == DecodeMV(c, "rat", e.r) x == DecodeMV(c, "rat", e.x) IN
+       IF MR!SameElement(MR!GP(c, r, r), MR!NormSq(c, x)) THEN "ok" ELSE "norm_squared_differs_from_normsq"
+  ELSE IF e.cert = "normalized" THEN
+       LET r == DecodeMV(c, "rat", e.r) x == DecodeMV(c, "rat", e.x) IN
+       IF ~MR!SameElement(MR!NormSq(c, r), MR!MVOne(c.d)) THEN "normalized_element_does_not_have_squared_norm_1"
+       ELSE IF \E a, b \in MR!Supp(x) : ~REq(RMul(r[a], x[b]), RMul(r[b], x[a])) THEN "normalized_element_is_not_a_multiple_of_the_operand"
+       ELSE "ok"
+  ELSE IF e.cert = "exp" THEN
+       LET X == MIx!FromKV(c.d, e.X.keys, e.X.coefs)
+           sq == MIx!GP(c, X, X)
+           series == FoldSet(LAMBDA k, acc : MIx!Add(MIx!Scale((MIx!Fact(e.N) \div MIx!Fact(k)) * IPow(e.g, e.N - k), MIx!GPow(c, X, k)), acc),
+                             MIx!MVZero(c.d), 0 .. e.N)
+           F == MIx!FromKV(c.d, e.F.keys, e.F.coefs)
+       IN  IF \E B \in DOMAIN sq : B # 0 /\ sq[B] # 0 THEN "MACHINERY_operand_is_not_simple"
+           ELSE IF \E B \in DOMAIN F : AbsInt(F[B] - series[B]) > e.tol THEN "exp_differs_from_the_power_series"
+           ELSE "ok"
+  ELSE "unknown_certificate"
+
 Verdict(e) ==
   CASE e.kind = "op" -> OpEventVerdict(CC, e)
+    [] e.kind = "cert" -> CertVerdict(CC, e)
     [] e.kind = "resolve" -> (IF e.container # e.expected_container THEN "sequence_operand_did_not_yield_the_sequence_of_results"
                                ELSE OpEventVerdict(CC, e))
     [] e.kind = "bcast" -> BcastVerdict(CC, e)
